@@ -174,10 +174,21 @@ HoldsDefault(n) == n.k \in {"var", "qv"} /\ n.x \in DOMAIN vtag /\ vtag[n.x] = "
 \* distinguished from a read of an assigned variable whose value is outside its type.
 UnsetRead(f) == f.n.k \in {"var", "qv"} /\ f.n.x \notin DOMAIN vars
 
+\* Within one run only the first finding per property is kept: later ones of the same property
+\* are consequences of the same cause (a run with a stale type keeps reading stale types).
+Untainted(fs) == SelectSeq(fs, LAMBDA x : ("tainted:" \o x.prop) \notin flags)
+TaintOf(fs) == {"tainted:" \o fs[j].prop : j \in 1..Len(fs)}
+
+\* An error at an infallible-typed node in a run that already showed a stale variable type or
+\* constant (written in a closure / modified by del) is attributed to that cause.
+StaleCause == IF "cause:closure" \in flags THEN ":stale-closure"
+              ELSE IF "cause:del" \in flags THEN ":stale-del" ELSE ""
+CauseOf(f, fs) == IF fs # <<>> /\ TagOf(f.n) # "" THEN {"cause" \o TagOf(f.n)} ELSE {}
+
 StaticFindings(f, out) ==
   LET n == f.n IN
   IF ~HasStatic(n) \/ "tainted" \in flags THEN <<>>
-  ELSE
+  ELSE Untainted(
    (IF IsOk(out) /\ ~InKindExpr(out.v, n.st.kd)
       THEN << [prop |-> (IF n.k = "call" THEN "C03" ELSE IF HoldsDefault(n) THEN "C08" ELSE "C01"),
                rule |-> (IF HoldsDefault(n) THEN "DefaultInOkKind" ELSE IF UnsetRead(f) THEN "UnsetVarReadKind"
@@ -190,8 +201,8 @@ StaticFindings(f, out) ==
       ELSE <<>>)
    \o
    (IF out.o = "err" /\ ~ChildErr(f) /\ ~n.st.fal /\ ~(n.k = "call" /\ n.bang)
-      THEN << [prop |-> "C02", rule |-> "InfallibleNodeErrs", at |-> DescSt(n)] >>
-      ELSE <<>>)
+      THEN << [prop |-> "C02", rule |-> "InfallibleNodeErrs" \o StaleCause, at |-> DescSt(n)] >>
+      ELSE <<>>))
 
 RECURSIVE AddAllAt(_, _, _, _)
 AddAllAt(vs, fs, what, id) ==
@@ -286,7 +297,7 @@ T_Exit ==
           ELSE /\ vars' = NewVars
                /\ k' = Append(SubSeq(k, 1, Len(k) - 2), Absorb(k[Len(k) - 1], out))
                /\ viols' = AddAll(viols, sf, [got |-> out, expected |-> "static"])
-               /\ flags' = flags \cup ExitFlags(f, out) \cup (IF sf # <<>> THEN {"tainted"} ELSE {})
+               /\ flags' = flags \cup ExitFlags(f, out) \cup TaintOf(sf) \cup CauseOf(f, sf)
                /\ cnt' = LET c1 == Bump(cnt, "events")
                              c2 == IF HasStatic(f.n) /\ IsOk(out) THEN Bump(c1, "kind_checks") ELSE c1
                              c3 == IF HasStatic(f.n) /\ IsOk(out) /\ f.n.st.hc THEN Bump(c2, "const_checks") ELSE c2
@@ -328,7 +339,11 @@ T_Target ==
                                     !.writes = IF Ev.op \in {"ins", "rem"} /\ ~Ev.fault
                                                THEN Append(@, [op |-> Ev.op, pre |-> Ev.pre, p |-> Ev.p]) ELSE @]
             /\ UNCHANGED <<vars, prog, mode, divs, vtag>>
-       ELSE Abandon(Blame(f), [got |-> "target " \o Ev.op, expected |-> x.a])
+       ELSE IF run.mode # "plain"
+            THEN \* under injected faults the interpreter must issue exactly the operations the rules say
+                 Abandon([prop |-> "C17", rule |-> "FaultedOperationProtocol", at |-> Desc(f.n)],
+                         [got |-> "target " \o Ev.op, expected |-> x.a])
+            ELSE Abandon(Blame(f), [got |-> "target " \o Ev.op, expected |-> x.a])
 
 \* whole-run checks at Runtime::resolve's return
 FinalFindings(res, viaret) ==
@@ -417,7 +432,7 @@ T_End ==
      THEN /\ mode' = "idle" /\ k' = <<>>
           /\ vars' = Ev.vars
           /\ viols' = AddAll((IF "tainted" \in flags THEN viols
-                               ELSE AddAll(viols, FinalFindings(Ev.res, x.v.o = "ret"), [got |-> Ev.res, expected |-> "final"])),
+                               ELSE AddAll(viols, Untainted(FinalFindings(Ev.res, x.v.o = "ret")), [got |-> Ev.res, expected |-> "final"])),
                               (IF run.mode = "plain" THEN RoFindings ELSE <<>>),
                               [got |-> [ev |-> Ev.ev, meta |-> Ev.meta], expected |-> [ev |-> run.ev, meta |-> run.meta, ro |-> prog.ro]])
           /\ cnt' = LET c1 == Bump(cnt, "events")
